@@ -207,10 +207,50 @@ func ParseRaceReports(text string) (sigs []string, reports []string) {
 		if !strings.Contains(p, "WARNING: DATA RACE") {
 			continue
 		}
+		if simulatorInternal(p) {
+			// both accesses were made by the simulator's own kernel-like state (simulated disk,
+			// cooperative sync wrappers) on behalf of two tasks: a real kernel serialises that itself
+			continue
+		}
 		reports = append(reports, strings.TrimSpace(p))
 		sigs = append(sigs, raceSig(p))
 	}
 	return
+}
+
+// simulatorInternal reports whether in both stacks of a race report the accessing function
+// (first frame that is not runtime/reflect/sync) lies in the simulator runtime (pkg/verifsim).
+func simulatorInternal(rep string) bool {
+	n, internal := 0, 0
+	inStack, decided := false, false
+	for _, ln := range strings.Split(rep, "\n") {
+		t := strings.TrimSpace(ln)
+		isHdr := (strings.Contains(ln, " by goroutine ") || strings.Contains(ln, " by main goroutine")) &&
+			(strings.HasPrefix(t, "Read at") || strings.HasPrefix(t, "Write at") || strings.HasPrefix(t, "Previous read at") ||
+				strings.HasPrefix(t, "Previous write at") || strings.HasPrefix(t, "Atomic") || strings.HasPrefix(t, "Previous atomic"))
+		if isHdr {
+			inStack, decided = true, false
+			n++
+			continue
+		}
+		if strings.HasPrefix(t, "Goroutine ") {
+			inStack = false
+			continue
+		}
+		if !inStack || decided || !strings.HasPrefix(ln, "  ") || strings.HasPrefix(ln, "      ") || !strings.HasSuffix(t, ")") {
+			continue
+		}
+		fn := t[:strings.LastIndex(t, "(")]
+		if strings.HasPrefix(fn, "runtime.") || strings.HasPrefix(fn, "reflect.") || strings.HasPrefix(fn, "sync.") ||
+			strings.HasPrefix(fn, "sync/atomic.") || strings.HasPrefix(fn, "internal/") {
+			continue
+		}
+		decided = true
+		if strings.HasPrefix(fn, modPkg+"verifsim") {
+			internal++
+		}
+	}
+	return n >= 2 && internal == n
 }
 
 func raceSig(rep string) string {
